@@ -9,3 +9,4 @@ pub mod alloc;
 pub mod sandbox;
 pub mod lexer;
 pub mod canon;
+pub mod frontfault;
